@@ -477,9 +477,13 @@ impl Ctx {
             let _ = std::fs::create_dir_all(&dir);
         }
         for (n, (sig, (space, v, case))) in new_sigs.iter().enumerate() {
-            // determinism gate: the same case must give the same verdict twice
-            let r1 = guarded(|| replay(space, case));
-            let r2 = guarded(|| replay(space, case));
+            // determinism gate: the same case must give the same verdict twice.  A case that
+            // kills or hangs its worker process has been re-run alone in a process of its own by
+            // the bisection (that is its reproduction); replaying it here would take this
+            // process down with it.
+            let in_worker_only = sig.ends_with(":kills-the-process") || sig.ends_with(":does-not-terminate");
+            let r1 = if in_worker_only { Ok(None) } else { guarded(|| replay(space, case)) };
+            let r2 = if in_worker_only { Ok(None) } else { guarded(|| replay(space, case)) };
             let norm = |r: &Result<Option<Outcome>, (String, String)>| match r {
                 Ok(Some(o)) => Some(o.viol.iter().map(|v| v.sig.clone()).collect::<Vec<_>>()),
                 Ok(None) => None,
